@@ -68,13 +68,26 @@ def member_list(ev_read, ev_check):
     return out
 
 
+def first_header_offset(A):
+    """offset of the first method signature in A (the archive's own self-extractor stub, if any, precedes it)"""
+    for i in range(max(0, len(A) - 6)):
+        if A[i + 2] == 0x2d and A[i + 6] == 0x2d:
+            t = A[i + 3:i + 6]
+            if t[:2] == b'lh' or (t[:2] == b'lz' and t[2:3] in (b'4', b'5', b's')) or (t[:2] == b'pm' and t[2:3] != b's'):
+                return i
+    return len(A)
+
+
 def shard(seed, items, tier):
     """items: (name, A, [(class, P)...])"""
     sh = core.Shard()
     rnd = random.Random(seed)
     cases, plan = [], []
     for name, A, prefs in items:
-        variants = [('bare', b'')] + prefs
+        own = first_header_offset(A)
+        # the statement allows up to 255 KiB before the first header *in total*: an archive that already carries its own
+        # self-extractor stub only gets prefixes that keep the sum below that
+        variants = [('bare', b'')] + [(c_, P_) for c_, P_ in prefs if own + len(P_) < 255 * 1024]
         for cls, P in variants:
             data = P + A
             kinds = [0, 1, 2, 3] if cls == 'bare' else ([2] + rnd.sample([0, 1, 3], 2) if len(data) < 100000 else [rnd.choice([0, 1, 2, 3])])
